@@ -116,30 +116,54 @@ Definition th_cleanup (th : thread dcmd dans) : list dcmd :=
 Definition abort_all (s : fs) (ths : list (thread dcmd dans)) : fs :=
   run_cmds s (flat_map th_cleanup ths).
 
+(* chunk size of AioFile + the behaviour of the asynchronous writes *)
+Record wcfg := mkW { w_chunk : nat; w_fault : N -> N -> nat -> option nat }.
+Definition full_writes (c : nat) : wcfg := mkW c (fun _ _ n => Some n).
+(* the chunk size is positive and no write reports an error (short writes allowed) *)
+Definition wcfg_ok (c : wcfg) : Prop := w_chunk c <> O /\ forall t off n, w_fault c t off n <> None.
+
 Section DiskOps.
   (* pickle.dumps / pickle.loads of the two kinds of object the backend stores *)
   Variable enc_env : envelope -> bytes.
   Variable dec_env : bytes -> option envelope.
   Variable enc_meta : meta -> bytes.
   Variable dec_meta : bytes -> option meta.
-  (* AioFile.chunk_size (16 KiB in the code; the runs patch it down) *)
-  Variable chunk : nat.
+  (* AioFile.chunk_size (16 KiB in the code; the runs patch it down) and what the
+     asynchronous writes do (an environment choice per temp file, offset and
+     requested length) *)
+  Variable chunk : wcfg.
 
-  (* AioFile.dump, the do-while loop over _write_piece.  `rest` is
-     data[offset:]; fuel = its length (every round writes >= 1 byte or fails). *)
+  (* how many of the n >= 1 requested bytes this aio_write stores: None = the
+     callback reports an error (ENOSPC, EFBIG ...); a count outside 1..n-1 = all *)
+  Definition written (t off : N) (n : nat) : option nat :=
+    match w_fault chunk t off n with
+    | None => None
+    | Some w => Some (if (Nat.ltb 0 w && Nat.ltb w n)%bool then w else n)
+    end.
+
+  (* AioFile.dump, the do-while loop over _write_piece: `ret = _write_piece(...);
+     offset += ret; if offset >= data_len: break` - a short write is continued at
+     offset+ret, an error raises IOError (finally: close; the temp file stays
+     behind).  `rest` is data[offset:]; fuel = its length (every round stores
+     >= 1 byte or fails). *)
   Fixpoint write_loop (fuel : nat) (t : N) (off : N) (rest : bytes) (p : path) (k : dprog) : dprog :=
-    let piece := firstn chunk rest in
-    let rest' := skipn chunk rest in
-    Do (CWrite t off piece) (fun _ =>
-      match piece with
-      | [] => Do (CClose t) (fun _ => Ret REmptyWrite)   (* ret == 0: IOError; finally: close; temp file stays behind *)
-      | _ :: _ =>
-          match rest', fuel with
-          | [], _ => Do (CRename t p) (fun _ => Do (CClose t) (fun _ => k))     (* finally: os.close(fd) *)
-          | _ :: _, S f => write_loop f t (off + N.of_nat (length piece)) rest' p k
-          | _ :: _, O => Ret REmptyWrite (* unreachable: fuel = length rest *)
-          end
-      end).
+    let req := firstn (w_chunk chunk) rest in
+    match req with
+    | [] => Do (CWrite t off []) (fun _ => Do (CClose t) (fun _ => Ret REmptyWrite))   (* ret == 0: IOError *)
+    | _ :: _ =>
+        match written t off (length req) with
+        | None => Do (CClose t) (fun _ => Ret REmptyWrite)      (* the write failed: IOError, nothing stored *)
+        | Some w =>
+            let piece := firstn w rest in
+            let rest' := skipn w rest in
+            Do (CWrite t off piece) (fun _ =>
+              match rest', fuel with
+              | [], _ => Do (CRename t p) (fun _ => Do (CClose t) (fun _ => k))     (* finally: os.close(fd) *)
+              | _ :: _, S f => write_loop f t (off + N.of_nat w) rest' p k
+              | _ :: _, O => Ret REmptyWrite (* unreachable: fuel = length rest *)
+              end)
+        end
+    end.
 
   Definition dump (data : bytes) (p : path) (t : N) (k : dprog) : dprog :=
     Do (CMkTemp t) (fun a =>
